@@ -377,8 +377,10 @@ pub fn inputs_for(name: &str, thorough: bool) -> (Vec<Inp>, Vec<Inp>) {
 }
 
 fn panic_class(msg: &str) -> &'static str {
-    if msg.contains("No decision to release") {
-        "panic:No decision to release"
+    if msg.contains("No decision to release") || msg.contains("attempt to subtract with overflow") {
+        // `run_hooks` reached a hook that has no decision to release (with overflow checks on,
+        // its remaining_decision_count underflows first)
+        "panic:run_hooks-no-decision"
     } else if msg.contains("Stream ended") {
         "panic:stream ended early"
     } else if msg == "test failed" {
@@ -421,7 +423,7 @@ pub fn c36_end_to_end() {
             let base = json!({"engine": "hv_sim_a", "flow": name, "mode": "exhaustive", "input": inp.to_json()});
             if let Some(e) = err {
                 rep.violation(
-                    &format!("C36|e2e:{name}|{}|exhaustive", panic_class(&e)),
+                    &format!("C36|e2e:{name}|{}", panic_class(&e)),
                     &format!("CompiledSim::exhaustive failed after {} instances: {e} (the simulator's own report is in the log)", traces.len()),
                     base.clone(),
                 );
@@ -467,7 +469,7 @@ pub fn c36_end_to_end() {
                     Verdict::Panic(m) => {
                         let mut c = base.clone();
                         c["log"] = json!(util::strip_ansi(&run.log));
-                        rep.violation(&format!("C36|e2e:{name}|{}|bytes", panic_class(m)), &format!("the simulated instance panicked: {m}"), c);
+                        rep.violation(&format!("C36|e2e:{name}|{}", panic_class(m)), &format!("the simulated instance panicked: {m}"), c);
                         false
                     }
                 };
